@@ -1406,6 +1406,20 @@ def variants(tier: str) -> List[Dict[str, Any]]:
                           for verb in ("remove", "install", "execute", "execute")])
     add("data_manipulation(rich obs, web-browser removed, installed again and executed)", c, 1, 30, ex, p_extra=0.6,
         script=(0, None, 1, None, None, None, 2))
+    # per-host overrides of the nodes-level options: a host that says `false` where the nodes level says `true` (and the
+    # reverse) - the host's own value is the one that counts
+    for nodes_level in ((True, True, True), (False, False, False)):
+        c = dm()
+        rich_observation(c, scan=nodes_level)
+        for h in _nodes_opts(c)["hosts"]:
+            if h["hostname"] in ("database_server", "client_1", "web_server"):
+                h["file_system_requires_scan"] = not nodes_level[0]
+                h["services_requires_scan"] = not nodes_level[1]
+                h["applications_requires_scan"] = not nodes_level[2]
+        ex = _add_actions(c, adversarial_actions())
+        _proxy(c)["agent_settings"]["flatten_obs"] = False
+        add(f"data_manipulation(rich obs, nodes-level requires_scan={nodes_level[0]}, three hosts say the opposite, adversarial)", c,
+            1, 40 if quick else 100, ex)
     # degenerate dimensions: every configurable count at its lower end (0 slots), hosts switched off and on again so
     # that the default observations of the empty shapes are produced as well
     def zero(c, keys):
